@@ -356,6 +356,13 @@ Definition active_writer (st : state) (t : tid) (n : name) : Prop :=
 Definition disjoint_writers (st : state) : Prop :=
   forall t t' n, active_writer st t n -> active_writer st t' n -> t = t'.
 
+(* P holds in every state along the run of ls from st *)
+Fixpoint always (P : state -> Prop) (fixed : bool) (limit : Z) (ls : list label) (st : state) : Prop :=
+  match ls with
+  | [] => P st
+  | l :: r => P st /\ always P fixed limit r (next fixed limit st l)
+  end.
+
 (* coherent: every registered, non-scrapped element that no writer holds or
    waits for reflects the committed version of its name *)
 Definition coherent (st : state) : Prop :=
@@ -419,6 +426,27 @@ Definition keepsb (ntx : nat) (st st' : state) : bool :=
              end) (mmap st).
 Definition clean_atb (ntx : nat) (fixed : bool) (limit : Z) (st : state) (l : label) : bool :=
   keepsb ntx st (next fixed limit st l) && no_writer_on_scrappedb st l.
+
+Fixpoint cleanb (ntx : nat) (fixed : bool) (limit : Z) (ls : list label) (st : state) : bool :=
+  match ls with
+  | [] => true
+  | l :: r => clean_atb ntx fixed limit st l && cleanb ntx fixed limit r (next fixed limit st l)
+  end.
+
+(* the current access of the transaction is read-only *)
+Definition reading (p : phase) : bool :=
+  match p with
+  | PCreate w | PLock w _ | PScrap w _ _ | PReady w _ | PIn w _ | PErr w _ => w_ro w
+  | _ => false
+  end.
+
+(* every transaction has run its whole program and has committed or aborted *)
+Definition all_done (st : state) : Prop :=
+  forall t, finished (txs st t) /\ done (txs st t) = true.
+
+(* read-only programs *)
+Definition ro_op (o : op) : bool := match o with OWith _ ro _ => ro | OCommit _ => true end.
+Definition ro_prog (p : list op) : bool := forallb ro_op p.
 
 (* programs of the quantifier: accesses, then (at most) one Commit, nothing after it *)
 Fixpoint wf_prog (p : list op) : Prop :=
